@@ -3,7 +3,7 @@ From Zinoma.Proofs Require Export SysC20.
 
 Definition label_actor (l : label) : option tid :=
   match l with
-  | LDeliver t _ | LInval t _ | LTermActor t | LBuildDone t _ => Some t
+  | LDeliver t _ | LInval t _ | LTermActor t | LBuildDone t _ | LDeliverAt t _ _ => Some t
   | _ => None
   end.
 
@@ -17,7 +17,7 @@ Qed.
 Lemma exec_frame fx w s s' l t :
   exec fx w s l = Some s' -> label_actor l <> Some t -> actors s' !! t = actors s !! t.
 Proof.
-  destruct l as [t0 ok|t0 ok|t0|t0 r| | | | |ts|]; cbn [exec label_actor]; intros H Hne.
+  destruct l as [t0 ok|t0 ok|t0|t0 r| | | | |ts| |t0 i ok|i]; cbn [exec label_actor]; intros H Hne.
   - destruct (actors s !! t0); [|done]. destruct (inbox s !! t0) as [[|m rest]|]; try done.
     eapply apply_step_frame; [done|congruence].
   - destruct (actors s !! t0); [|done]. case_bool_decide; [|done]. eapply apply_step_frame; [done|congruence].
@@ -25,11 +25,17 @@ Proof.
   - destruct (actors s !! t0) as [a|]; [|done]. destruct (match r with RCancelled => cancel_sent a | _ => true end); [|done].
     eapply apply_step_frame; [done|congruence].
   - destruct (root_running s && _); [|done]. destruct (rootq s) as [|o rest]; [done|].
-    destruct w; [by injection H as <-|].
-    destruct o as [[|d] [k r|k r|[] t1 act|k t1]|t1]; by injection H as <-.
+    injection H as <-. unfold root_consume. destruct w; [done|].
+    by destruct o as [[|d] [k r|k r|[] t1 act|k t1]|t1].
   - destruct (root_running s && _ && _); [|done]. destruct (set_empty (r_svc s)); by injection H as <-.
   - destruct (ph s); try done; by injection H as <-.
   - destruct (sigq s && _); [|done]. by injection H as <-.
   - destruct (w && _); [|done]. by injection H as <-.
   - destruct (ph s); try done. destruct (all_exited s); [|done]. by injection H as <-.
+  - destruct (actors s !! t0); [|done]. destruct (inbox s !! t0) as [l|]; [|done].
+    destruct (pick i l) as [[[pre m] rest]|]; [|done]. destruct (none_from _ _ pre); [|done].
+    eapply apply_step_frame; [done|congruence].
+  - destruct (root_running s && _); [|done]. destruct (pick i (rootq s)) as [[[pre o] rest]|]; [|done].
+    destruct (none_from _ _ pre); [|done]. injection H as <-. unfold root_consume. destruct w; [done|].
+    by destruct o as [[|d] [k r|k r|[] t1 act|k t1]|t1].
 Qed.
